@@ -245,6 +245,8 @@ class Index(ArraySchema[pd.Index]):
         """
         import pandera.strategies as st
 
+        self.register_default_backends(pd.DataFrame)
+
         return st.index_strategy(
             self.dtype,  # type: ignore
             checks=self.checks,
@@ -433,6 +435,8 @@ class MultiIndex(DataFrameSchema):
     # pylint: disable=arguments-differ
     def strategy(self, *, size=None):  # type: ignore
         import pandera.strategies as st
+
+        self.register_default_backends(pd.DataFrame)
 
         return st.multiindex_strategy(indexes=self.indexes, size=size)
 
